@@ -58,8 +58,13 @@ DataKept(e) == /\ StepOf(e, "m1again").dump = StepOf(e, "insert").dump
                /\ StepOf(e, "m2").dump = StepOf(e, "insert").dump
                /\ StepOf(e, "m2again").dump = StepOf(e, "insert").dump
                /\ Len(StepOf(e, "insert").dump) = 3
+\* the named (composite) indexes of the model exist with the uniqueness and the partial condition their
+\* members declare, whichever member declares them
+ShapeOK(e) == /\ \A i \in DOMAIN e.want_indexes : \E j \in DOMAIN e.final_indexes : e.final_indexes[j] = e.want_indexes[i]
+              /\ Len(e.final_indexes) = Len(e.want_indexes)
 HistoryOK(e) ==
-  [setup  |-> StepOf(e, "m1").err = "nil" /\ StepOf(e, "insert").err = "nil",
+  [shape  |-> ShapeOK(e),
+   setup  |-> StepOf(e, "m1").err = "nil" /\ StepOf(e, "insert").err = "nil",
    idem   |-> NoSchemaChange(StepOf(e, "m1again")) /\ NoSchemaChange(StepOf(e, "m2again")),
    add    |-> OnlyAdditions(e, StepOf(e, "m2")),
    data   |-> DataKept(e),
